@@ -144,7 +144,18 @@ fn build_value(n: &Node, t: &mut Tape, st: &mut Stats) -> Value {
             let it = match route {
                 0 => {
                     let mut it = InlineTable::new();
-                    for (k, v) in pairs {
+                    // a builder that looks an entry up through mutable indexing (`item["k"]`) leaves
+                    // an invisible placeholder behind: it is no part of the structure
+                    let ghost_at = if t.chance(1, 4) && !pairs.iter().any(|(k, _)| k == "ghost-entry") { Some(t.below(pairs.len() + 1)) } else { None };
+                    for (i, (k, v)) in pairs.into_iter().enumerate() {
+                        if ghost_at == Some(i) {
+                            let mut holder = Item::Value(Value::InlineTable(std::mem::take(&mut it)));
+                            let _ = &mut holder["ghost-entry"];
+                            st.class("inline.placeholder");
+                            if let Item::Value(Value::InlineTable(back)) = holder {
+                                it = back;
+                            }
+                        }
                         it.insert(k, v);
                     }
                     it
